@@ -435,6 +435,10 @@ def shared_run(seed, tier, log=print):
                          ("narrow", plan_gen.directed_narrowing), ("both", plan_gen.directed_both), ("enums", plan_gen.directed_enums), ("assign", plan_gen.directed_assign)):
             for k, (prog, text) in enumerate(gen()):
                 cases.append(("%s-%d" % (fam, k), prog, text, {"directed_" + fam: 1}, fam))
+        case_expect = {}
+        for k, (prog, text, exp) in enumerate(plan_gen.directed_varfields()):
+            cases.append(("varfield-%d" % k, prog, text, {"directed_varfield": 1}, "varfield"))
+            case_expect["varfield-%d" % k] = exp
         case_timeout = {}
         for k, (prog, text, tmo) in enumerate(plan_gen.directed_rings()):
             cases.append(("rings-%d" % k, prog, text, {"directed_rings": 1}, "rings"))
@@ -448,6 +452,10 @@ def shared_run(seed, tier, log=print):
                 dump, dt = solve_one(hexes[c], text, min(pl["timeout"], case_timeout.get(name, pl["timeout"])))
                 t_solve += dt
                 rec = {"name": name, "family": fam, "config": c, "feats": feats, "status": dump["status"], "what": dump.get("what", ""), "secs": round(dt, 3)}
+                if name in case_expect:
+                    rec["expect"] = case_expect[name]      # satisfiable / unsatisfiable by construction
+                    if dump["status"] != "solved":
+                        rec["text"] = text
                 if dump["status"] == "solved":
                     t1 = time.time()
                     try:
